@@ -19,7 +19,10 @@ for id in $ids; do
     nv=$(grep -c '^VIOLATION' $SCR.out/$id.$p.log)
     first=$(grep '^VIOLATION' $SCR.out/$id.$p.log | head -1 | sed 's/.*replay=[^ ]*\///' | cut -c1-90)
     res="$res [$p rc=$rc violations=$nv first=$first]"
+    names=$(grep '^VIOLATION' $SCR.out/$id.$p.log | sed 's/.*replay=[^ ]*\///; s/-[0-9a-f]\{8\}\.json//' | sort -u | head -8 | tr '\n' ';')
+    printf '%s\t%s\t%s\t%s\t%s\n' "$id" "$p" "$rc" "$nv" "$names" >> $SCR.out/matrix.tsv
   done
   echo "$id:$res"
 done
+[ -f $SCR.out/matrix.tsv ] && cp $SCR.out/matrix.tsv ${VERIF_MATRIX_OUT:-/verif/build/matrix.tsv}
 git -C /repo worktree remove --force $SCR >/dev/null 2>&1; rm -rf $SCR.out
